@@ -12,6 +12,10 @@
     len(tokens), len(possible_simple_keys), len(buffer), len(events) through the stage interfaces; the maxima are judged
     by TLC against the bounds of the L models with the real constants (a structure above its bound that grows with n is
     a violation: its pop / copy cost is its length).
+(d) spec -> code, cycle families: spec/WorkPump.tla exports the transition graph of the finite configurations of Work.tla
+    (str input, runs of any length); every way an input can grow by repetition is a cycle u v^n w of that graph.  For every
+    scanner loop (pc) and every character class that selects a branch of it (Choose-edge signature) the shortest cycle is
+    concretised and the real scanner is run on u v^n w, u v^2n w, u v^4n w; the counts are judged by Trace_Work.tla.
 """
 import json, os, re
 from concurrent.futures import ThreadPoolExecutor
@@ -45,10 +49,49 @@ DESIGN_QUICK = {
     'reader':       ('WorkReader', 'MC_WorkReader.cfg', {}),
     'emitter':      ('WorkEmit', 'MC_WorkEmit.cfg', {}),
 }
+WRITERS = {'writers': {}, 'writers_wide': {'MaxRun': 3, 'W': 5}}          # WorkWrite.tla, MC_WorkWrite.cfg; quick: the first
 DESIGN_THOROUGH = dict(DESIGN_QUICK)
-for _k in ('exact_flow', 'exact_anchors'):         # thorough only
+DESIGN_THOROUGH.update({
+    'bscalar_str':  ('Work', 'MC_Work.cfg', cfgd(MaxFlow=0, MaxCol=3, MaxRun=2, Sym='{"w", "s", "n", "b", "i", "c", "h"}')),
+    'bscalar_map':  ('Work', 'MC_Work.cfg', cfgd(MaxFlow=0, MaxCol=2, MaxRun=2, Sym='{"w", "s", "n", "b", "i", "h", ":"}')),
+    'exact_bscalar': ('Work', 'MC_Work.cfg', cfgd(Exact='TRUE', MaxLen=11, MaxFlow=0, MaxCol=2, Sym='{"w", "s", "n", "b", "i"}')),
+})
+# quick: the finite-abstraction configurations with MaxKey = 4 / MaxRun = 3 are thorough only; quick checks the same
+# invariants on the cycle-family configurations (CYCLE_QUICK, other values of the scaled constants) that it needs anyway
+for _k in ('exact_flow', 'exact_anchors', 'block_str', 'anchors_str', 'scalars_str', 'flow_str'):
     del DESIGN_QUICK[_k]
-NEGCTL_QUICK = ('nokeylimit_queue', 'concat', 'nobuftrim', 'aliaswalk', 'reader_nobuftrim', 'emitter_lookahead')
+# configurations of spec/WorkPump.tla (= Work.tla + edge export): the invariants of MC_Work.cfg are checked, and the cycles
+# of the graph are the families of binding (d)
+def cyc(**kw):
+    return cfgd(MaxRun=1, MaxKey=2, **kw)
+
+
+CYCLE_QUICK = {
+    'bscalar': cyc(MaxFlow=0, MaxCol=3, Sym='{"w", "s", "n", "b", "i", "c", "h"}'),
+    'block':   cyc(MaxFlow=0, MaxCol=2, Sym='{"w", "s", "n", "-", ":", "k", "h", "d"}'),
+    'scalars': cyc(MaxFlow=0, MaxCol=1, Sym='{"w", "s", "n", "q", "h", ":", "d", "z"}'),
+    'quotes':  cyc(MaxFlow=0, MaxCol=1, Sym='{"w", "s", "n", "q", "Q", "e", "x", "h", ":"}'),
+    'flow':    cyc(MaxFlow=1, MaxCol=1, Sym='{"w", "s", "n", "[", "]", ",", ":", "k"}'),
+    'flowq':   cyc(MaxFlow=1, MaxCol=1, Sym='{"w", "n", "[", "]", ",", ":", "k", "Q"}'),
+    'anchors': cyc(MaxFlow=1, MaxCol=1, Sym='{"a", "r", "w", "[", ",", "]", "s", "n"}'),
+    'tags':    cyc(MaxFlow=0, MaxCol=1, Sym='{"w", "s", "n", "t", "p", ":", ","}'),
+}
+CYCLE_THOROUGH = dict(CYCLE_QUICK)
+CYCLE_THOROUGH.update({
+    'bscalar_map': cyc(MaxFlow=0, MaxCol=2, Sym='{"w", "s", "n", "b", "i", "h", ":"}'),
+    'bscalar_seq': cyc(MaxFlow=0, MaxCol=2, Sym='{"w", "s", "n", "b", "i", "-", "h"}'),
+    'flow2':       cyc(MaxFlow=2, MaxCol=1, Sym='{"w", "n", "[", "]", ",", ":", "q"}'),
+    'tags_flow':   cyc(MaxFlow=1, MaxCol=1, Sym='{"w", "s", "n", "t", "p", "[", "]", ","}'),
+    'block_run2':  cfgd(MaxRun=2, MaxKey=3, MaxFlow=0, MaxCol=2, Sym='{"w", "s", "n", "-", ":", "h", "d", "a"}'),
+})
+ACTION_OF_PC = {'idle': 'APull', 'tonext': 'AToNext', 'comment': 'AComment', 'fetch': 'AFetch', 'plain': 'APlain',
+                'pspaces': 'APlainSpaces', 'pbreaks': 'APlainBreaks', 'quoted': 'AQuoted', 'qend': 'AQuotedEnd',
+                'qspaces': 'AQuotedSpaces', 'qbreaks': 'AQuotedBreaks', 'qesc': 'AQuotedEsc', 'qhex': 'AQuotedHex', 'tag0': 'ATag0', 'tagrun': 'ATagRun',
+                'dirname': 'ADirName', 'dirskip': 'ADirSkip', 'anchor': 'AAnchor', 'bhead': 'ABlockHead',
+                'bignore': 'ABlockIgnore', 'bcomment': 'ABlockComment', 'bindent': 'ABlockIndent', 'bbreaks': 'ABlockBreaks',
+                'bcheck': 'ABlockCheck', 'bline': 'ABlockLine'}
+C1 = {'JAVA_TOOL_OPTIONS': '-XX:TieredStopAtLevel=1 -XX:ParallelGCThreads=2'}     # small runs: JIT / GC threads dominate the CPU
+NEGCTL_QUICK = ('nokeylimit_queue', 'concat', 'nobuftrim', 'aliaswalk', 'reader_nobuftrim', 'emitter_lookahead', 'writer_reslice')
 DESIGN_THOROUGH.update({
     'all_str':      ('Work', 'MC_Work.cfg', cfgd()),
     'flow_str3':    ('Work', 'MC_Work.cfg', cfgd(MaxFlow=2, MaxCol=1, Sym='{"w", "s", "n", "[", "]", ",", ":", "q"}')),
@@ -81,10 +124,11 @@ NEGCTL = {
     'aliaswalk':        ('Work', 'MC_Work_alias.cfg', {}, {'StepCost'}),
     'reader_nobuftrim': ('WorkReader', 'MC_WorkReader_negctl.cfg', {}, {'Amortised'}),
     'emitter_lookahead': ('WorkEmit', 'MC_WorkEmit_negctl.cfg', {}, {'EventQueueBound', 'StepCost'}),
+    'writer_reslice':   ('WorkWrite', 'MC_WorkWrite_negctl.cfg', {}, {'StepCost'}),
     'serializer_anchorscan': ('WorkEmit', 'MC_WorkEmit_negctl.cfg', {'Variant': '"anchorscan"', 'MaxEvents': 40}, {'StepCost'}),
 }
-WORK_ACTIONS = ['Choose', 'APull', 'AToNext', 'AComment', 'AFetch', 'APlain', 'APlainSpaces', 'APlainBreaks', 'AQuoted',
-                'AQuotedEnd', 'AQuotedSpaces', 'AQuotedBreaks', 'AAnchor']
+WORK_ACTIONS = ['Choose'] + sorted(ACTION_OF_PC.values())
+WRITE_ACTIONS = ['Begin', 'Step']
 EMIT_ACTIONS = ['SendDocStart', 'SendDocEnd', 'SendStreamEnd', 'SendScalar', 'SendAlias', 'SendStart', 'SendEnd', 'Drain']
 READER_ACTIONS = ['Peek', 'Prefix', 'Forward', 'EndOfStream']
 
@@ -101,7 +145,9 @@ _ACT = re.compile(r'<(\w+) line \d+, col \d+ to line \d+, col \d+ of module \w+(
 
 def run_tlc(item):
     name, (module, cfg, consts) = item[0], item[1][:3]
-    r = tlc.run(module, cfg=cfg, workers=item[2], heap='3g', timeout=item[3], tag='C20_' + name, constants=consts or None)
+    small = len(item) > 4 and item[4]
+    r = tlc.run(module, cfg=cfg, workers=item[2], heap='1g' if small else '3g', timeout=item[3], tag='C20_' + name, constants=consts or None,
+                env=C1 if small else None, coverage=not (small and len(item[1]) > 3))     # negative controls: no coverage needed
     r.actions = {}                      # (actions under \E carry a position suffix that harness/tlc.py does not parse)
     for a, d, g in _ACT.findall(r.out):
         x = r.actions.setdefault(a, [0, 0])
@@ -112,7 +158,7 @@ def run_tlc(item):
 
 def catalogue(tier, only=None):
     quick = tier == 'quick'
-    target, min_n, doublings, nested_n = (80000, 600, 2, 40) if quick else (300000, 2000, 3, 50)
+    target, min_n, doublings, nested_n = (40000, 300, 2, 40) if quick else (300000, 2000, 3, 50)
     jitter = (SEED * 37) % 13
     calls, prims = [], []
 
@@ -169,7 +215,8 @@ def catalogue(tier, only=None):
             sizes = [pn, 2 * pn, 4 * pn]
         if fam in U.LOAD_API:
             continue
-        prims.append(('load', fam, 'load', sizes))
+        if not quick:                       # (quick: stream input only - it exercises the buffer as well as queue and keys)
+            prims.append(('load', fam, 'load', sizes))
         prims.append(('load', fam, 'load_stream', sizes))
     for fam in U.DUMP:
         if only and fam not in only:
@@ -183,6 +230,19 @@ def catalogue(tier, only=None):
     return calls, prims
 
 
+def run_cycle_cfg(item):
+    """WorkPump on one configuration (invariants of MC_Work.cfg checked, edges exported), then the cycles of its graph"""
+    name, consts, workers, timeout, dpool, heap = item
+    module = 'WorkWrite' if name in WRITERS else 'WorkPump'
+    r = tlc.run(module, cfg='MC_%s.cfg' % module, workers=workers, heap=heap, timeout=timeout, tag='C20_cyc_' + name,
+                constants=consts or None, coverage=False, env=C1)
+    r.cycles = None
+    if r.ok:
+        r.cycles = dpool.apply(U.derive_from_file, (os.path.join(r.rundir, 'tlc.out'),))
+    r.out = r.out[-4000:]                      # the edge lines are on disk
+    return 'cyc_' + name, r
+
+
 def main(tier, replay=None):
     v = Verdict('C20', tier)
     quick = tier == 'quick'
@@ -191,16 +251,64 @@ def main(tier, replay=None):
         only = {x['key']['family'] for x in json.load(open(replay))['violations']}
     calls, prims = catalogue(tier, only)
     design = DESIGN_QUICK if quick else DESIGN_THOROUGH
+    cycle_cfgs = CYCLE_QUICK if quick else CYCLE_THOROUGH
+    writer_cfgs = {'writers': WRITERS['writers']} if quick else WRITERS
     negctl = {k: x for k, x in NEGCTL.items() if not quick or k in NEGCTL_QUICK}
-    big = {'all_str', 'flow_str3', 'flow_stream', 'block_stream2'}
-    jobs = [(n, d, 8 if n in big else 4, 3000) for n, d in design.items()] + [(n, d, 2, 900) for n, d in negctl.items()]
+    big = {'all_str', 'flow_str3', 'flow_stream', 'block_stream2', 'bscalar_str'}
+    jobs = [(n, d, 8 if n in big else 2 if quick else 4, 3000, quick or d[0] != 'Work') for n, d in design.items()]
+    jobs += [(n, d, 1, 900, True) for n, d in negctl.items()]
     jobs.sort(key=lambda j: 0 if j[0] in big else 1)
     # the real code is measured in worker processes while TLC explores the models
-    pool = mp.Pool(11 if quick else 12)
-    a_calls = pool.map_async(U.measure_calls, calls, chunksize=1)
-    a_prims = pool.map_async(U.measure_prims, prims, chunksize=1)
-    with ThreadPoolExecutor(5 if quick else 2) as ex:      # quick: 16 small JVM runs, start-up dominated
-        results = dict(ex.map(run_tlc, jobs))
+    pool = mp.Pool(int(os.environ.get('VERIF_C20_PROCS', '12')))
+    dpool = mp.Pool(4)
+    jitter = (SEED * 37) % 13
+    with ThreadPoolExecutor(int(os.environ.get('VERIF_C20_JVMS', '6' if quick else '3'))) as ex:      # quick: ~20 small JVM runs, start-up dominated
+        fc = [ex.submit(run_cycle_cfg, (n, c, 2, 3000, dpool, '1g' if n in CYCLE_QUICK else '3g')) for n, c in cycle_cfgs.items()]
+        fc += [ex.submit(run_cycle_cfg, (n, c, 1, 900, dpool, '1g')) for n, c in writer_cfgs.items()]
+        fo = [ex.submit(run_tlc, j) for j in jobs]
+        a_calls = pool.map_async(U.measure_calls, calls, chunksize=1)
+        a_prims = pool.map_async(U.measure_prims, prims, chunksize=1)
+        cyc_results = dict(f.result() for f in fc)
+        # ------------------------------------------------------------ (d) cycle families: derived from the graphs
+        per_cfg, cyc_cov, wfams = {}, {}, {}
+        for name, r in cyc_results.items():
+            if r.violated:
+                print(r.out[-3000:])
+                raise SystemExit('machinery failure: WorkPump configuration %s violates %s - the cost MODEL is wrong' % (name, r.violated))
+            tlc.require_ok(r, 'C20 cycle configuration ' + name)
+            fams, sigs, nodes, actions = r.cycles
+            if name[4:] in WRITERS:
+                wfams[name[4:]] = fams
+                r.actions = {'Begin': [1, sum(1 for x in sigs if x[0] == 'start')], 'Step': [1, sum(1 for x in sigs if x[0] != 'start')]}
+            else:
+                per_cfg[name[4:]] = fams
+                r.actions = {ACTION_OF_PC[pc]: [n, n] for pc, n in actions.items() if pc in ACTION_OF_PC}
+                r.actions['Choose'] = [len(sigs), len(sigs)]
+            cyc_cov[name] = {'states': r.distinct, 'configurations': nodes, 'signatures': len(sigs), 'on_a_cycle': len(fams)}
+        selected = U.select_cycles(per_cfg)
+        ctasks = []
+        for name, fam, sig in selected:
+            if only and name not in only:
+                continue
+            ctasks.append((name, fam, 'scan', 12000 if quick else 100000, 200 if quick else 1000, 2 if quick else 3, jitter, False))
+            if not quick:
+                ctasks.append((name, fam, 'scan', 100000, 1000, 2, jitter, True))      # the alternate concretisation
+        a_cyc = pool.map_async(U.measure_cycle, ctasks, chunksize=2)
+        wtasks, wseen = [], set()
+        for cfgname in sorted(wfams):
+            for name, fam, sig in U.select_wcycles(wfams[cfgname], cfgname):
+                if (only and name not in only) or (fam[0][0], fam[1]) in wseen:
+                    continue
+                wseen.add((fam[0][0], fam[1]))
+                for api in ('dump_style',) if quick else ('dump_style', 'emit_scalar', 'dump_style_stream'):
+                    wtasks.append((name, fam, api, 12000 if quick else 100000, 200 if quick else 1000, 2 if quick else 3, jitter))
+        a_wcyc = pool.map_async(U.measure_wcycle, wtasks, chunksize=2)
+        results = dict(f.result() for f in fo)
+    dpool.close()
+    results.update(cyc_results)
+    design = dict(design)
+    design.update({'cyc_' + n: ('WorkPump', 'MC_WorkPump.cfg', c) for n, c in cycle_cfgs.items()})
+    design.update({'cyc_' + n: ('WorkWrite', 'MC_WorkWrite.cfg', c) for n, c in writer_cfgs.items()})
     # ---------------------------------------------------------------- (a) design checks
     states = trans = 0
     fired = {}
@@ -216,10 +324,13 @@ def main(tier, replay=None):
         trans += r.generated
         per_cfg[name] = {'module': module, 'states': r.distinct, 'transitions': r.generated, 'depth': r.depth,
                          'constants': {k: str(x) for k, x in (consts or {}).items() if k in
-                                       ('Block', 'MaxKey', 'MaxFlow', 'MaxCol', 'MaxRun', 'MaxLen', 'Stream', 'Exact', 'Sym')}}
+                                       ('Block', 'MaxKey', 'MaxFlow', 'MaxCol', 'MaxRun', 'MaxLen', 'Stream', 'Exact', 'Sym', 'W')}}
         for a, c in r.actions.items():
             fired[(module, a)] = fired.get((module, a), 0) + c[1]
-    unfired = [(m_, a) for m_, acts in (('Work', WORK_ACTIONS), ('WorkEmit', EMIT_ACTIONS), ('WorkReader', READER_ACTIONS))
+    for (m_, a), c in list(fired.items()):
+        if m_ == 'WorkPump':
+            fired[('Work', a)] = fired.get(('Work', a), 0) + c
+    unfired = [(m_, a) for m_, acts in (('Work', WORK_ACTIONS), ('WorkEmit', EMIT_ACTIONS), ('WorkReader', READER_ACTIONS), ('WorkWrite', WRITE_ACTIONS))
                for a in acts if fired.get((m_, a), 0) == 0]
     if unfired:
         raise SystemExit('machinery failure: actions never taken in any design configuration: %s' % unfired)
@@ -237,23 +348,24 @@ def main(tier, replay=None):
     # ---------------------------------------------------------------- (b), (c) measurements judged by TLC
     rc = a_calls.get()
     rp = a_prims.get()
+    ry = a_cyc.get() + a_wcyc.get()
     pool.close()
     pool.join()
-    recs = list(rc) + list(rp)
+    recs = list(rc) + list(ry) + list(rp)
     # a family member that the tree under test rejects is not C20's subject: noted, and what completed is still judged
     failed = [t for t in recs if t.get('error')]
     for t in failed[:5]:
         v.note('C20: family %s/%s: a member was rejected by the tree under test (%s); judged on the sizes that completed'
                % (t['family'], t['api'], t['error']))
     recs = [t for t in recs if (len(t['w']) >= 2 if t['kind'] == 'ratio' else len(t['q']) >= 1)]
-    traces = [{k: t[k] for k in t if k not in ('sizes', 'units', 'error')} for t in recs]
+    traces = [{k: t[k] for k in t if k not in ('sizes', 'units', 'error', 'uvw')} for t in recs]
     for t in traces:                     # TLC integers are 32-bit: counts of 10^8 and more (only a badly superlinear tree
         if t['kind'] == 'ratio':         # gets there) are divided exactly by a fixed unit; the ratios are unchanged
             t['unit'] = 1
             while max(t['w']) >= 10 ** 8:
                 t['w'] = [x // 1024 for x in t['w']]
                 t['unit'] *= 1024
-    verdicts, s2 = trace.judge('Trace_Work', traces, 'C20_meas')
+    verdicts, s2 = trace.judge('Trace_Work', traces, 'C20_meas', par=2)
     states += s2
     nratio = nprim = ndrift = 0
     worst = []
@@ -266,7 +378,7 @@ def main(tier, replay=None):
             nprim += 1
         if not ok:
             v.violation({'family': t['family'], 'api': t['api'], 'clause': why},
-                        {'record': t, 'at': at, 'how': 'counts of interpreter-level calls (sys.setprofile call + c_call) or, for '
+                        {'record': t, 'at': at, 'text': ('%r + %r * n + %r' % tuple(t['uvw'])) if t.get('uvw') else None, 'how': 'counts of interpreter-level calls (sys.setprofile call + c_call) or, for '
                          'kind prim, primitive lengths sampled through the stage interfaces'})
         elif why.startswith('drift'):
             ndrift += 1
@@ -275,7 +387,9 @@ def main(tier, replay=None):
     worst.sort(reverse=True)
     v.cov = {'states': states, 'transitions': trans, 'exhaustive': True,
              'traces_validated_against_impl': len(traces), 'ratio_records_judged': nratio, 'primitive_bound_records_judged': nprim,
-             'load_families': len(U.LOAD) + len(U.APP_LOAD),
+             'load_families': len(U.LOAD) + len(U.APP_LOAD), 'cycle_families': len(ctasks), 'writer_cycle_families': len(wtasks),
+             'cycle_families_rejected_by_the_scanner': sum(1 for t in ry if t.get('error')),
+             'cycle_configurations': cyc_cov,
              'dump_families': len(U.DUMP) + len(U.DUMP_ALL) + len(U.TEXT_FED) + len(U.APP_DUMP),
              'distinct_nontrivial': len({(t['family'], t['api']) for t in recs}),
              'rule': 'one record per (family, api): call counts at n, 2n, 4n%s under sys.setprofile judged by Trace_Work.tla '
